@@ -107,15 +107,18 @@ def opCmp : Option Op → MVal → MVal → Except Err Bool
 def operatorCmp (op : MVal) (recorded value : MVal) : Except Err Bool :=
   opCmp (parseOp op) recorded value
 
-/-- `_operator_filter` after F8: `try … except TypeError: return False` -/
-def operatorFilter (op : MVal) (recorded value : MVal) : Except Err Bool :=
-  match operatorCmp op recorded value with
-  | .ok b => .ok b
-  | .error .typeError => .ok false
-
 /-- `_operator_filter` before F8 -/
 def operatorFilterUnfixed (op : MVal) (recorded value : MVal) : Except Err Bool :=
   operatorCmp op recorded value
+
+/-- `_operator_filter` as it stands in the source: with the comparisons inside `try … except TypeError: return False`
+(after F8; the atom is read from the source on every run) a comparison that cannot be made is "no match" -/
+def operatorFilter (op : MVal) (recorded value : MVal) : Except Err Bool :=
+  if PlaybackModel.Source.operatorCatchesTypeError then
+    match operatorCmp op recorded value with
+    | .ok b => .ok b
+    | .error .typeError => .ok false
+  else operatorFilterUnfixed op recorded value
 
 def isNone : MVal → Bool
   | .none => true
@@ -134,7 +137,7 @@ def atomMatch (f r : MVal) : Except Err Bool :=
   if isNone r then .ok false else .ok (pyEq r f)
 
 /-- the string branch after F8: `isinstance(recorded_value, str) and fnmatch(recorded_value, match_value)` -/
-def patternMatch (glob : String → String → Bool) (p : String) : MVal → Except Err Bool
+def patternMatchGuarded (glob : String → String → Bool) (p : String) : MVal → Except Err Bool
   | .str s => .ok (glob p s)
   | _ => .ok false
 
@@ -143,6 +146,10 @@ def patternMatchUnfixed (glob : String → String → Bool) (p : String) : MVal 
   | .str s => .ok (glob p s)
   | .none => .ok false
   | _ => .error .typeError
+
+/-- the string branch as it stands in the source -/
+def patternMatch (glob : String → String → Bool) (p : String) (r : MVal) : Except Err Bool :=
+  if PlaybackModel.Source.patternGuardsNonString then patternMatchGuarded glob p r else patternMatchUnfixed glob p r
 
 /-- `isinstance(v, dict) and 'operator' in v and 'value' in v` -/
 def operatorParts (fs : List (String × MVal)) : Option (MVal × MVal) :=
